@@ -72,6 +72,13 @@ def gen_case(rng):
       pre.append(late)
       if rng.random() < 0.5:
         pre.append({'op': 'finalize'})
+  if rng.random() < 0.2:
+    # a bound value that cannot be printed (its repr raises): the configuration is cleared without being printed
+    cons = rng.choice(regs)
+    cls = [n for n, k in G.param_classes(cons).items() if k == 'valid']
+    if cls:
+      pre.append({'op': 'bind', 'scope': rng.choice(['', 'a']), 'sel': cons['_selector'], 'arg': rng.choice(cls),
+                  'val': {'o': 470 + rng.randint(0, 3)}, '_form': 'tuple', 'block': False})
   clear = {'op': 'clear', 'constants': rng.random() < 0.35}
   # which constants exist is decided by the reference run over the whole prefix (histories toggle
   # interactive mode themselves, so the local flag above is not the whole story)
